@@ -8,6 +8,7 @@ import (
 	"fmt"
 	"io"
 	"math/bits"
+	"strings"
 	"time"
 
 	"go.sia.tech/core/consensus"
@@ -254,6 +255,16 @@ func runGatewayFits(b *harness.B) {
 			}
 			_, k := gwRoundTrip(b, &gateway.RPCShareNodes{Peers: peers}, &gateway.RPCShareNodes{}, true, variant, nil)
 			ok = ok && k
+			if max {
+				// the longest address a peer can announce: the handshake header (32+8+128 bytes) leaves 120 bytes for it
+				long := make([]string, 100)
+				for j := range long {
+					host := strings.Repeat("a", 120-len(".example:65535")-3) + fmt.Sprintf("%03d", j)
+					long[j] = host + ".example:65535"
+				}
+				_, k = gwRoundTrip(b, &gateway.RPCShareNodes{Peers: long}, &gateway.RPCShareNodes{}, true, "max-valid-instance/100-peers-with-120-byte-addresses", nil)
+				ok = ok && k
+			}
 			_, k = gwRoundTrip(b, &gateway.RPCShareNodes{}, &gateway.RPCShareNodes{}, false, variant, nil)
 			ok = ok && k
 		}
